@@ -68,6 +68,11 @@ struct Ctx<'a> {
     dropped_items: Vec<String>,
     /// functions for which a hint / loop contract / closure contract was dropped because its anchor disappeared
     hint_dropped_fns: Vec<String>,
+    /// keys (`fn key`, `pos|anchor|occurrence`) of the hints dropped because their anchor disappeared, and the hints
+    /// the driver asks to drop on purpose (rules.force_drop_inserts: {fn key: [insert keys]}), used to test on the
+    /// PINNED tree whether a dropped hint was essential for the proof
+    dropped_hint_keys: Vec<(String, String)>,
+    force_drop: HashMap<String, Vec<String>>,
     /// functions in which a hint was re-attached by similarity (R1.fuzzyanchor)
     fuzzy_fns: Vec<String>,
     float: bool,
@@ -139,6 +144,8 @@ impl<'a> Ctx<'a> {
             renamed_fns: vec![],
             dropped_items: vec![],
             hint_dropped_fns: vec![],
+            dropped_hint_keys: vec![],
+            force_drop: HashMap::new(),
             fuzzy_fns: vec![],
             float: false,
             macro_map: HashMap::new(),
@@ -610,7 +617,19 @@ impl<'c, 'a, 'ast> Visit<'ast> for Rewriter<'c, 'a> {
 }
 
 /// similarity of two lines: 2*LCS/(|a|+|b|) over characters
+/// LCS similarity of an anchor with a source line; an anchor that is only the BEGINNING of a statement
+/// (`let is_late = next_window_size + draw`) is also compared with the equally long prefix of the line.
 fn similarity(a: &str, b: &str) -> f64 {
+    let full = similarity_full(a, b);
+    let (na, nb) = (a.chars().count(), b.chars().count());
+    if na + 4 < nb {
+        let prefix: String = b.chars().take(na + 2).collect();
+        return full.max(similarity_full(a, &prefix));
+    }
+    full
+}
+
+fn similarity_full(a: &str, b: &str) -> f64 {
     let a: Vec<char> = a.chars().collect();
     let b: Vec<char> = b.chars().collect();
     if a.is_empty() || b.is_empty() {
@@ -1030,12 +1049,17 @@ fn renamed_contract(cx: &mut Ctx, f: &FnInfo, c: &Value) -> Option<Value> {
             other => other.clone(),
         }
     }
+    let renamed = walk(c, &map, None);
+    if &renamed == c {
+        // the contract text names none of the renamed bindings: nothing to adapt
+        return None;
+    }
     let (b0, _) = cx.range(f.span);
     for _ in 0..map.len() {
         cx.push(b0, b0, "", "R1.renamedlocal");
     }
     cx.renamed_fns.push(f.key.clone());
-    Some(walk(c, &map, None))
+    Some(renamed)
 }
 
 fn apply_contract(cx: &mut Ctx, f: &FnInfo, contract: Option<&Value>, mutself: bool) {
@@ -1127,8 +1151,9 @@ fn apply_contract(cx: &mut Ctx, f: &FnInfo, contract: Option<&Value>, mutself: b
                         Some(j)
                     }
                     None => {
+                        // (not a reason to distrust a failure: the loop is gone, what took its place is straight-line
+                        // code the verifier sees directly - only proof HINTS that lose their anchor are)
                         cx.push(blk0, blk0, "", "R1.droppedloop");
-                        cx.hint_dropped_fns.push(f.key.clone());
                         None
                     }
                 },
@@ -1177,6 +1202,11 @@ fn apply_contract(cx: &mut Ctx, f: &FnInfo, contract: Option<&Value>, mutself: b
             let text = i.get("text").and_then(|v| v.as_str()).unwrap_or("");
             let n = body.matches(anchor).count();
             let occ = i.get("occurrence").and_then(|v| v.as_u64());
+            let ins_key = format!("{}|{}|{}", pos, anchor, occ.unwrap_or(0));
+            if cx.force_drop.get(&f.key).map(|v| v.contains(&ins_key)).unwrap_or(false) {
+                cx.push(bs, bs, "", "R1.forcedrop");
+                continue;
+            }
             let expect = i.get("of").and_then(|v| v.as_u64()).unwrap_or(1) as usize;
             let mut fuzzy_at: Option<usize> = None;
             if n != expect && n >= 1 && expect > 1 && pos != "replace" {
@@ -1200,6 +1230,7 @@ fn apply_contract(cx: &mut Ctx, f: &FnInfo, contract: Option<&Value>, mutself: b
                 if fuzzy_at.is_none() && i.get("droppable").and_then(|v| v.as_bool()).unwrap_or(false) {
                     cx.push(bs, bs, "", "R1.droppedhint");
                     cx.hint_dropped_fns.push(f.key.clone());
+                    cx.dropped_hint_keys.push((f.key.clone(), ins_key.clone()));
                     continue;
                 }
             }
@@ -1251,6 +1282,7 @@ fn apply_contract(cx: &mut Ctx, f: &FnInfo, contract: Option<&Value>, mutself: b
                     // the anchored statement is gone: drop this proof hint (ghost code only) and say so
                     cx.push(bs, bs, "", "R1.droppedhint");
                     cx.hint_dropped_fns.push(f.key.clone());
+                    cx.dropped_hint_keys.push((f.key.clone(), ins_key.clone()));
                     continue;
                 }
                 if fuzzy_at.is_none() {
@@ -1423,8 +1455,9 @@ fn apply_closure_specs(cx: &mut Ctx, f: &FnInfo, specs: Option<&Value>, mutself:
                     j
                 }
                 None => {
-                    cx.push(cx.range(block.span()).0, cx.range(block.span()).0, "", "R1.droppedhint");
-                    cx.hint_dropped_fns.push(f.key.clone());
+                    // the closure is gone (inlined / rewritten): its contract is dropped with it; as for loops this
+                    // does not make a failure untrustworthy
+                    cx.push(cx.range(block.span()).0, cx.range(block.span()).0, "", "R1.droppedclosure");
                     continue;
                 }
             },
@@ -1916,6 +1949,7 @@ fn main() {
                 continue;
             }
             let it = found[nth];
+            cx.force_drop = rules["force_drop_inserts"].as_object().map(|m| m.iter().map(|(k, v)| (k.clone(), v.as_array().map(|a| a.iter().filter_map(|x| x.as_str().map(String::from)).collect()).unwrap_or_default())).collect()).unwrap_or_default();
             cx.pinned_locals = rules["pinned_locals"].as_object().map(|m| m.iter().map(|(k, v)| (k.clone(), v.as_array().map(|a| a.iter().filter_map(|x| x.as_str().map(String::from)).collect()).unwrap_or_default())).collect()).unwrap_or_default();
             cx.pinned_loop_sigs = rules["pinned_loop_sigs"].as_object().map(|m| m.iter().map(|(k, v)| (k.clone(), v.as_array().map(|a| a.iter().filter_map(|x| x.as_str().map(String::from)).collect()).unwrap_or_default())).collect()).unwrap_or_default();
             cx.pinned_closure_sigs = rules["pinned_closure_sigs"].as_object().map(|m| m.iter().map(|(k, v)| (k.clone(), v.as_array().map(|a| a.iter().filter_map(|x| x.as_str().map(String::from)).collect()).unwrap_or_default())).collect()).unwrap_or_default();
@@ -2208,6 +2242,7 @@ fn main() {
                 "dropped_items": cx.dropped_items.clone(),
                 "hint_dropped_fns": cx.hint_dropped_fns.clone(),
                 "fuzzy_fns": cx.fuzzy_fns.clone(),
+                "dropped_hint_keys": cx.dropped_hint_keys.iter().map(|(k, v)| json!([k, v])).collect::<Vec<_>>(),
                 "loop_sigs": cx.loop_sigs.iter().map(|(k, v)| json!([k, v])).collect::<Vec<_>>(),
             }));
         }
